@@ -81,14 +81,19 @@ def work(shard, rec):
         bgc = G.uniform(rnd) if i % 7 else rnd.choice([(0, 0, 0), (255, 255, 255), (17, 17, 17)])
         a = rnd.choice(ALPHAS) if rnd.random() < 0.45 else "%.*f" % (rnd.randrange(1, 7), rnd.random())
         kind = SP.TRANSLUCENT_KINDS[i % 4]
+        if i % 11 == 3:
+            # channels that are all 0 or 1 (ints): still an RGBA colour, a near-black - not HSLA fractions
+            fg = tuple(rnd.choice([0, 1]) for _ in range(3))
+            kind = ["rgba_tuple", "rgba_list", "rgba", "rgba_tuple"][(i // 11) % 4]
         text = SP.spell_translucent(fg, a, kind)
         if i % 6 == 5:
             # other spellings the library accepts for translucent text: rgb() carrying an alpha (CSS Color 4 alias forms) and
             # the informal list; a small fixed pool so that the same string meets many backgrounds in one process
-            fg = [(0, 0, 0), (255, 255, 255), (200, 30, 30), (20, 90, 200)][(i // 6) % 4]
-            a = ["0.5", "0.7", "0.25"][(i // 24) % 3]
-            kind = ["rgb4", "rgbslash", "informal4"][(i // 6) % 3]
-            text = {"rgb4": "rgb(%d, %d, %d, %s)", "rgbslash": "rgb(%d %d %d / %s)", "informal4": "%d, %d, %d, %s"}[kind] % (fg + (a,))
+            if (i // 6) % 2:
+                fg = [(0, 0, 0), (255, 255, 255), (200, 30, 30), (20, 90, 200)][(i // 12) % 4]
+                a = ["0.5", "0.7", "0.25"][(i // 48) % 3]
+            kind = SP.TRANSLUCENT_KINDS_X[(i // 6) % len(SP.TRANSLUCENT_KINDS_X)]
+            text = SP.spell_translucent(tuple(fg), a, kind)
         if text is None:
             continue
         # background spelling; sometimes itself translucent
